@@ -21,7 +21,10 @@ use std::task::{Context, Poll};
 
 pub fn parse_stream_script(t: &str) -> VecDeque<SAns<u32>> {
     if t == "_" || t.is_empty() { return VecDeque::new(); }
-    t.split(',').map(|a| match a.chars().next().unwrap() { 'i' => SAns::Item(a[1..].parse().unwrap()), 'x' => SAns::Err, 'p' => SAns::Pending, _ => panic!("bad stream answer {a}") }).collect()
+    // `i<n>*`: a publisher with a standing backlog (the item again and again, 100 000 times)
+    t.split(',').flat_map(|a| match a.chars().next().unwrap() {
+        'i' if a.ends_with('*') => vec![SAns::Item(a[1..a.len() - 1].parse().unwrap()); 100_000],
+        'i' => vec![SAns::Item(a[1..].parse().unwrap())], 'x' => vec![SAns::Err], 'p' => vec![SAns::Pending], _ => panic!("bad stream answer {a}") }).collect()
 }
 
 pub struct Obs {
@@ -289,6 +292,9 @@ pub fn run(cfg: &Cfg) {
                 }
             }
         }
+        // shutdown while a publisher has a standing backlog: the router finishes with what it has taken, it does not
+        // go on draining the publisher
+        for c in ["ps +k_ +tp,i9* poll close poll poll", "ps +k_ +ti1,p,i9* poll close poll poll", "ps +k_ +k_ +tp,i9* +tp poll close poll poll", "ps +kf=P +tp,i9* poll close poll poll poll"] { cases.push(c.to_string()); }
         // long bursts of messages that are all ready at once (more than any per-poll allowance a router might
         // have): everything available must be forwarded and flushed before the router sleeps on the publisher
         for n in [63usize, 64, 65, 127, 128, 129, 130, 255, 256, 257, 1000] {
